@@ -385,7 +385,7 @@ DeliverB(c, e) ==
   /\ dpend[c][e] \notin {Nil, Checked}
   /\ dpend' = [dpend EXCEPT ![c][e] = Nil]
   /\ RecvFrame(IF "CountAfterPublish" \in Dev THEN [Snap EXCEPT !.count[e] = @ + 1] ELSE Snap, e, dpend[c][e])
-  /\ lastEv' = [a |-> "DeliverB", c |-> c, e |-> e]
+  /\ lastEv' = [a |-> "DeliverB", c |-> c, e |-> e, s |-> dpend[c][e].sid]
   /\ UNCHANGED <<net, connUp, deplexOn, pool, AccV, WrV, AppV, nextId, timerDecided, openpc, addpc>>
 
 -----------------------------------------------------------------------------
